@@ -62,6 +62,16 @@ open(p, "w").write(s)
 PY
 (cd "$R" && GOFLAGS=-mod=mod GOPROXY=off GOSUMDB=off GOTOOLCHAIN=local go build ./... && go test ./... >/dev/null 2>&1) || { echo "selftest: named constants do not build/pass"; fail=1; }
 quiet named-constant C03 C15
+# 1f the trailing `if … { return A }; return B` of fromEntropy written as if/else
+python3 - "$R" <<'PY'
+import sys
+p = sys.argv[1] + "/entropy.go"; s = open(p).read()
+a = s.index("\tif lg == Japanese {")
+s = s[:a] + '\tif lg == Japanese {\n\t\treturn strings.Join(wordList, "\\u3000")\n\t} else {\n\t\treturn strings.Join(wordList, "\\x20")\n\t}\n}\n'
+open(p, "w").write(s)
+PY
+(cd "$R" && GOFLAGS=-mod=mod GOPROXY=off GOSUMDB=off GOTOOLCHAIN=local go build ./... && go test ./... >/dev/null 2>&1) || { echo "selftest: if/else variant does not build/pass"; fail=1; }
+quiet if-else C01
 # 2 seeded changes
 res=$(tools/mutants.sh "$R" seeded/C01/1 seeded/C03/2 seeded/C06/2 seeded/C09/2 seeded/C10/1 seeded/C13/2 seeded/C16/2 2>&1)
 echo "$res" | cut -c1-160
